@@ -21,6 +21,8 @@
 (*   FixedClose   : SFile.close forgets header / size / dtype, so that an object opened     *)
 (*                  again for writing starts from nothing (FALSE: they survive and the       *)
 (*                  first write to the new file takes the append path)                       *)
+(*   FixedSizeNow : an appending write rewrites the SIZE line at once (FALSE: only close()  *)
+(*                  does - a handle dropped without close leaves a stale count)              *)
 (*   FixedSeek    : every row write and every SIZE rewrite ends with the stream at the end   *)
 (*                  of the file (FALSE: rows are written where a partial read left it)       *)
 (*                                                                                        *)
@@ -32,7 +34,7 @@
 (* of the real code.                                                                        *)
 EXTENDS VU, Json
 
-CONSTANTS FixedCompat, FixedCount, FixedMissing, FixedClose, FixedSeek,
+CONSTANTS FixedCompat, FixedCount, FixedMissing, FixedClose, FixedSeek, FixedSizeNow,
           ChunkIds, Hdrs, Delims, Modes,
           MaxDepth,      \* behaviours of at most this many calls
           KeepHist,      \* record the behaviour (export runs); FALSE: states merge (invariant runs)
@@ -94,13 +96,19 @@ AbsFile(dk) ==
           rows |-> DataRows(dk.cells, m.descr)]
 
 \* ---- the objects ----------------------------------------------------------------------------------
-NoSf  == [open |-> FALSE, mode |-> "none", hashdr |-> FALSE, size |-> 0, descr |-> RSC!NoDescr, delim |-> "none", rfn |-> 0]
+NoSf  == [open |-> FALSE, mode |-> "none", hashdr |-> FALSE, size |-> 0, descr |-> RSC!NoDescr, delim |-> "none", rfn |-> 0,
+          pend |-> FALSE]                       \* pend: the SIZE line is behind _size (unrepaired variant only)
 NoCpp == [open |-> FALSE, nrows |-> 0, rd |-> FALSE, pos |-> 0]          \* pos: the stream position, in cells
 Bundle == [disk |-> disk, sf |-> sf, cpp |-> cpp]
 Out(s, r) == [s |-> s, res |-> r]
 
 \* ---- SFile.close: the Recfile is closed and dropped; what the object knows about the file is forgotten ------------
-SfClose(s) == Out([s EXCEPT !.sf = IF FixedClose THEN NoSf ELSE [@ EXCEPT !.open = FALSE], !.cpp = NoCpp], RSC!NoRes("close"))
+\* (the unrepaired size variant brings the SIZE line up to date here - and only here)
+Flushed(s) == IF s.sf.open /\ s.sf.pend THEN [s EXCEPT !.disk.cells = WriteAt(@, 0, SizeLine(s.sf.size)), !.sf.pend = FALSE] ELSE s
+SfClose(s0) == LET s == Flushed(s0) IN
+               Out([s EXCEPT !.sf = IF FixedClose THEN NoSf ELSE [@ EXCEPT !.open = FALSE], !.cpp = NoCpp], RSC!NoRes("close"))
+\* the object is released without close(): Records::~Records closes the stream (the rows are flushed), nothing else runs
+SfDrop(s) == Out([s EXCEPT !.sf = NoSf, !.cpp = NoCpp], RSC!NoRes("close"))
 
 \* ---- SFile.open (on a new object, or again on one that was used before: "self.close()" comes first) --------------
 SfOpen(s0, m, dl) ==
@@ -114,7 +122,7 @@ SfOpen(s0, m, dl) ==
          ELSE LET n == SizeOf(s.disk.cells)  mt == MetaOf(s.disk.cells) IN
               IF n < 1 THEN Out(s, RSC!RejRes("open"))       \* Records::process_nrows: "Input nrows must be >= 1"
               ELSE Out([s EXCEPT !.sf = [open |-> TRUE, mode |-> em, hashdr |-> TRUE, size |-> n, descr |-> mt.descr,
-                                         delim |-> mt.delim, rfn |-> n],
+                                         delim |-> mt.delim, rfn |-> n, pend |-> FALSE],
                                  \* Records::Records: goto_offset() - the stream is at the first row
                                  !.cpp = [open |-> TRUE, nrows |-> n, rd |-> TRUE,
                                           pos |-> IF FixedSeek \/ em = "r" THEN HdrLen ELSE Len(s.disk.cells)]],
@@ -123,7 +131,7 @@ SfOpen(s0, m, dl) ==
          \* then demands a dtype and nrows the caller did not give.  This branch sets _delim only.
          LET trunc == [s EXCEPT !.disk = [exists |-> TRUE, cells |-> <<>>]] IN
          IF em = "w+" THEN Out(trunc, RSC!RejRes("open"))
-         ELSE Out([trunc EXCEPT !.sf = [@ EXCEPT !.open = TRUE, !.mode = "w", !.delim = dl, !.rfn = 0],
+         ELSE Out([trunc EXCEPT !.sf = [@ EXCEPT !.open = TRUE, !.mode = "w", !.delim = dl, !.rfn = 0, !.pend = FALSE],
                                 !.cpp = [open |-> TRUE, nrows |-> 0, rd |-> FALSE, pos |-> 0]],
                   RSC!NoRes("open"))
 
@@ -156,11 +164,13 @@ SfWrite(s, c, hd) ==
     ELSE LET total == IF first THEN n ELSE s.sf.size + n
              d     == IF first THEN RSC!NormDescr(s.sf.delim, c.descr) ELSE s.sf.descr
              \* _write_header: the header the first time (header= is used only then), else _update_size
-             c1    == IF first THEN WriteHeader(s.disk.cells, n, hd, d, s.sf.delim) ELSE UpdateRowCount(s.disk.cells, total)
+             c1    == IF first THEN WriteHeader(s.disk.cells, n, hd, d, s.sf.delim)
+                      ELSE IF FixedSizeNow THEN UpdateRowCount(s.disk.cells, total) ELSE s.disk.cells
              p1    == IF first THEN HdrLen ELSE AfterUpdate(c1, s.cpp.pos)
              c2    == CppWrite(c1, p1, c, text)
          IN Out([s EXCEPT !.disk = [exists |-> TRUE, cells |-> c2],
-                          !.sf = [@ EXCEPT !.hashdr = TRUE, !.size = total, !.descr = d, !.rfn = @ + n],
+                          !.sf = [@ EXCEPT !.hashdr = TRUE, !.size = total, !.descr = d, !.rfn = @ + n,
+                                           !.pend = @ \/ (~first /\ ~FixedSizeNow)],
                           !.cpp = [@ EXCEPT !.nrows = IF FixedCount THEN @ + n ELSE n, !.pos = WritePos(c1, p1) + n]],
                 RSC!CountRes(op, total))
 
@@ -225,18 +235,21 @@ MWrite == sf.open /\ sf.mode # "r" /\ \E id \in ChunkIds : \E hd \in (IF sf.hash
 MRead  == sf.open /\ \E sel \in Sels : \E out \in {SfRead(Bundle, sel)} :
              Do(out, [Ev("hread", "none", "none", NoChunk, "none", out) EXCEPT !.sel = sel])
 MClose == sf.open /\ \E out \in {SfClose(Bundle)} : Do(out, Ev("hclose", "none", "none", NoChunk, "none", out))
+MDrop  == sf.open /\ \E out \in {SfDrop(Bundle)} : Do(out, Ev("hdrop", "none", "none", NoChunk, "none", out))
 MPathWrite  == PathOps /\ ~sf.open /\ \E id \in ChunkIds, hd \in Hdrs, dl \in Delims :
              \E out \in {PathWrite(Bundle, ChunkOf(id), hd, dl, FALSE)} : Do(out, Ev("write", "none", dl, ChunkOf(id), hd, out))
 MPathAppend == PathOps /\ ~sf.open /\ \E id \in ChunkIds :
              \E hd \in (IF AbsFile(disk).st = "ok" THEN {"none"} ELSE Hdrs), dl \in (IF AbsFile(disk).st = "ok" THEN {"none"} ELSE Delims) :
              \E out \in {PathWrite(Bundle, ChunkOf(id), hd, dl, TRUE)} : Do(out, Ev("append", "none", dl, ChunkOf(id), hd, out))
 
-Next == MOpen \/ MWrite \/ MRead \/ MClose \/ MPathWrite \/ MPathAppend
+Next == MOpen \/ MWrite \/ MRead \/ MClose \/ MDrop \/ MPathWrite \/ MPathAppend
 Spec == Init /\ [][Next]_mvars
 
 \* ---- the mechanism's own invariants ------------------------------------------------------------------------------
 \* the stored row count is the number of stored rows (between calls)
 SizeLineInv == (disk.exists /\ HasHeader(disk.cells)) => SizeOf(disk.cells) = Len(disk.cells) - HdrLen
+\* ... in particular once no handle is open any more, however the last one went (close or drop)
+SizeAfterInv == (~sf.open /\ disk.exists /\ HasHeader(disk.cells)) => SizeOf(disk.cells) = Len(disk.cells) - HdrLen
 
 \* the three row counts of an open handle agree with the file: SFile._size, Recfile.nrows, Records::mNrows
 CacheInv == (sf.open /\ sf.hashdr) => /\ HasHeader(disk.cells)
